@@ -44,7 +44,7 @@ Alphabet ==
     \* the '.' wildcard next to signs and '~': which variables count as used on the left-hand side
     [] AlphaName = "dot" -> << Names[1], Names[2], Lits[2], OpC("+"), OpC("-"), OpC("~"), Extra[6] >>
     \* quoted tokens that print like literals: `0`, `1` are columns and {0} is python code - none of them is the literal
-    [] AlphaName = "quoted" -> << Names[1], Lits[1], Lits[2], A(W!Tok("name", "0"), "`0`"), A(W!Tok("name", "1"), "`1`"), A(W!PyTok("0", <<>>), "{0}"), A(W!Tok("name", "."), "`.`"),
+    [] AlphaName = "quoted" -> << Names[1], Lits[1], Lits[2], A(W!Tok("name", "0"), "`0`"), A(W!Tok("name", "1"), "`1`"), A(W!PyTok("0", <<>>), "{0}"), A(W!Tok("name", "."), "`.`"), A(W!Tok("name", "~"), "`~`"),
                                   OpC("+"), OpC("-"), OpC(":"), OpC("~") >>
     [] AlphaName = "signs" -> << Names[1], Names[2], Lits[1], Lits[2], OpC("+"), OpC("-"), OpC("~"), OpC("|"), OpC(":"), OpC("*") >>
 
